@@ -120,7 +120,7 @@ impl CaseStats {
 pub type CheckResult = Result<CaseStats, Failure>;
 
 /// A property check.
-pub trait Check: Sync {
+pub trait Check: Sync + Send {
     fn id(&self) -> &'static str;
     fn level(&self) -> &'static str {
         "exploration"
@@ -144,6 +144,11 @@ pub trait Check: Sync {
     /// check-specific shrink steps on the `extra` payload
     fn extra_shrinks(&self, _case: &Case) -> Vec<Case> {
         vec![]
+    }
+    /// true if a failing case may pass when executed again (thread schedules): the first observed
+    /// failure is then reported even if the shrunk case does not fail again
+    fn nondeterministic(&self) -> bool {
+        false
     }
     /// watchdog limit for one generated case
     fn case_timeout_s(&self) -> u64 {
@@ -356,6 +361,7 @@ pub fn run_generated(check: &dyn Check, cfg: &RunConfig, agg: &mut Aggregate) ->
     });
     let results: Mutex<Vec<(Aggregate, Option<(Vec<u8>, String)>)>> = Mutex::new(Vec::new());
     let hang: Mutex<Option<Vec<u8>>> = Mutex::new(None);
+    let first_seen: Mutex<Option<(Case, Failure, Vec<u8>)>> = Mutex::new(None);
     let finished = AtomicBool::new(false);
 
     std::thread::scope(|s| {
@@ -389,6 +395,7 @@ pub fn run_generated(check: &dyn Check, cfg: &RunConfig, agg: &mut Aggregate) ->
             let done = done.clone();
             let watch = watch.clone();
             let results = &results;
+            let first_seen = &first_seen;
             handles.push(s.spawn(move || {
                 install_panic_hook();
                 let mut local = Aggregate::default();
@@ -426,6 +433,13 @@ pub fn run_generated(check: &dyn Check, cfg: &RunConfig, agg: &mut Aggregate) ->
                         Ok(Err(f)) => {
                             failed.set(true);
                             stop.store(true, Ordering::Relaxed);
+                            {
+                                let mut g = first_seen.lock().unwrap();
+                                // keep the smallest failing stream seen so far
+                                if g.as_ref().map_or(true, |x| bytes.len() <= x.2.len()) {
+                                    *g = Some((case.clone(), f.clone(), bytes.clone()));
+                                }
+                            }
                             Err(TestCaseError::fail(f.kind))
                         }
                         Err(p) => {
@@ -497,6 +511,11 @@ pub fn run_generated(check: &dyn Check, cfg: &RunConfig, agg: &mut Aggregate) ->
     let case = check.generate(&mut d, cfg.thorough);
     match guard(|| check.check(&case)) {
         Ok(Err(f)) => Some((case, f, Some(bytes), "proptest")),
+        _ if check.nondeterministic() => {
+            let (c, f, b) = first_seen.into_inner().unwrap().expect("a failure was recorded");
+            eprintln!("note: the shrunk case passed when executed again; reporting the failure as first observed");
+            Some((c, f, Some(b), "proptest"))
+        }
         other => harness_error(&format!(
             "shrunk case does not fail again ({:?}): {}",
             other.map(|r| r.map(|_| ())),
